@@ -70,6 +70,8 @@ pub struct Pipe {
     /// bytes of to_client already consumed by a client-side reader
     pub client_rpos: usize,
     pub server_shutdown: bool,
+    /// the peer has gone away altogether (closed both directions): server reads hit EOF, server writes fail
+    pub peer_gone: bool,
     pub server_dropped: usize,
     pub bytes_read_by_server: usize,
 }
@@ -111,6 +113,27 @@ pub struct Inner {
 static NEXT_GEN: std::sync::atomic::AtomicU64 = std::sync::atomic::AtomicU64::new(1);
 thread_local! {
     static MY_GEN: std::cell::Cell<u64> = const { std::cell::Cell::new(0) };
+    /// dropped when the thread really ends (after any unwinding): only then does a panicking thread give up its turn
+    static EXIT_GUARD: std::cell::RefCell<Option<ExitGuard>> = const { std::cell::RefCell::new(None) };
+}
+
+struct ExitGuard {
+    sched: Sched,
+    slot: usize,
+}
+
+impl Drop for ExitGuard {
+    fn drop(&mut self) {
+        let mut st = self.sched.lock();
+        if self.slot < st.threads.len() && !st.threads[self.slot].exited {
+            st.threads[self.slot].exited = true;
+            st.threads[self.slot].pending = None;
+            if st.running == Some(self.slot) {
+                st.running = None;
+            }
+            self.sched.0.cv.notify_all();
+        }
+    }
 }
 
 #[derive(Clone)]
@@ -345,6 +368,7 @@ extern "C" fn trampoline(p: *mut libc::c_void) -> *mut libc::c_void {
         st.by_os.insert(self_key(), b.slot);
     }
     MY_GEN.with(|c| c.set(b.sched.0.gen));
+    EXIT_GUARD.with(|g| *g.borrow_mut() = Some(ExitGuard { sched: b.sched.clone(), slot: b.slot }));
     b.sched.yield_op(Op::Born);
     let (start, arg) = (b.start, b.arg);
     drop(b);
@@ -384,8 +408,29 @@ pub unsafe extern "C" fn pthread_create(t: *mut libc::pthread_t, attr: *const li
                 }
             }
         }
+        // created by a controlled thread but not under control (wind-down, or a thread left over from an earlier
+        // execution): the child inherits its creator's generation, so that it can never report to a later scheduler
+        let g = MY_GEN.try_with(|c| c.get()).unwrap_or(0);
+        if g != 0 {
+            let b = Box::new(Inherit { start, arg, gen: g });
+            return real(t, attr, trampoline_inherit, Box::into_raw(b) as *mut libc::c_void);
+        }
     }
     real(t, attr, start, arg)
+}
+
+struct Inherit {
+    start: StartFn,
+    arg: *mut libc::c_void,
+    gen: u64,
+}
+
+extern "C" fn trampoline_inherit(p: *mut libc::c_void) -> *mut libc::c_void {
+    let b: Box<Inherit> = unsafe { Box::from_raw(p as *mut Inherit) };
+    MY_GEN.with(|c| c.set(b.gen));
+    let (start, arg) = (b.start, b.arg);
+    drop(b);
+    start(arg)
 }
 
 static INTERPOSE_SEEN: std::sync::atomic::AtomicBool = std::sync::atomic::AtomicBool::new(false);
@@ -440,6 +485,11 @@ pub fn install_hooks() {
         }
     })));
     std::panic::set_hook(Box::new(|info| {
+        if thread::current().name() == Some("main") {
+            // the controller itself: never a verdict
+            eprintln!("MACHINERY: controller panicked: {}", info);
+            std::process::exit(2);
+        }
         if let Some(s) = current() {
             let msg = format!("{}", info);
             let mut st = match s.0.mu.try_lock() {
@@ -456,13 +506,17 @@ pub fn install_hooks() {
             };
             if let Some(me) = st.by_os.get(&self_key()).copied() {
                 st.panics.push((me, msg));
-                if !st.threads[me].catches_panics {
+                let has_guard = EXIT_GUARD.try_with(|g| g.borrow().is_some()).unwrap_or(false);
+                if !st.threads[me].catches_panics && !has_guard {
+                    // (fallback without thread-creation interposition) write the thread off right away
                     st.threads[me].exited = true;
                     st.threads[me].pending = None;
                     if st.running == Some(me) {
                         st.running = None;
                     }
                 }
+                // with a guard the thread keeps its turn while it unwinds (destructors of the code under test may
+                // touch shared state) and gives it up when it has really ended
                 s.0.cv.notify_all();
             }
         }
@@ -498,8 +552,8 @@ impl ServerStream {
         }
         let mut st = self.sched.lock();
         let p = &mut st.pipes[self.id];
-        if p.server_shutdown {
-            return Err(io::Error::new(io::ErrorKind::BrokenPipe, "shut down"));
+        if p.server_shutdown || p.peer_gone {
+            return Err(io::Error::new(io::ErrorKind::BrokenPipe, "peer gone"));
         }
         p.to_client.extend_from_slice(b);
         Ok(b.len())
@@ -673,7 +727,7 @@ fn core_enabled(st: &St, tid: usize, op: &Op, world: &dyn World) -> bool {
         Op::Start | Op::Born => true,
         Op::Read(id) => {
             let p = &st.pipes[*id];
-            !p.to_server.is_empty() || p.client_closed || p.server_shutdown
+            !p.to_server.is_empty() || p.client_closed || p.server_shutdown || p.peer_gone
         }
         Op::ClientRead(id) => {
             let p = &st.pipes[*id];
@@ -923,6 +977,13 @@ pub fn explore(build: &dyn Fn(&Sched) -> Scenario, cfg: &ExploreCfg, on_exec: &m
         }
         let choices = x.choices();
         let free = |p: &ChoicePoint| cfg.env_order_free && p.n_thread == 0;
+        if x.points.len() < prefix.len() {
+            // the execution ended before the end of the prefix it was asked to replay
+            if x.violation.is_some() {
+                continue; // a verdict cut it short (e.g. the watchdog verdict): reported through on_exec above
+            }
+            return Err(Fail::Divergence(format!("execution ended after {} choice points while replaying a prefix of {}", x.points.len(), prefix.len())));
+        }
         let dev_before = x.points[..prefix.len()].iter().filter(|p| p.chosen != 0 && !free(p)).count();
         let mut children: Vec<Vec<usize>> = vec![];
         for i in prefix.len()..x.points.len() {
